@@ -1,5 +1,5 @@
-(* Wire entry points of the C06 model (stub until the model is built). *)
+(* Wire entry point of the C06 model (refinement structures of the dimension-wise strategy); see Model/DimWiseWire.v *)
 From Coq Require Import ZArith List.
-From SG Require Import Base.Sx.
+From SG Require Import Base.Sx Model.DimWiseWire.
 Open Scope Z_scope.
-Definition entry_C06 (sub : Z) (a : sx) : sx := sx_err 0.
+Definition entry_C06 (sub : Z) (a : sx) : sx := entry_dimwise sub a.
